@@ -9,6 +9,7 @@ from . import w2 as W
 
 def check_invariants(w, state, st, op):
     f = lambda oracle, sig, detail: w.flag('C07', oracle, dict(sig, op=op), detail + ' (after %s)' % op)
+    n_before = len(w.pending)
     # rule 2
     if st.dups:
         f('rule_2', {}, 'NodeIDs not distinct: %s' % st.dups[:3])
@@ -33,8 +34,8 @@ def check_invariants(w, state, st, op):
               (p[NAME], t))
         elif c == 'Link' and t not in W.RULE_LINK_TYPES:
             f('rule_8', {'type': t}, 'Link %s has type %s' % (p[NAME], t))
-    if w.pending:
-        return
+    if len(w.pending) > n_before:
+        return        # vocabulary rules already failed: the structural reading below assumes them
     for c in st.of_class('Component'):
         owners = st.node_of_component(c)
         if len(owners) != 1:
